@@ -71,6 +71,7 @@ func Upgrade7To8(old, new string, logger *log.Logger) (retErr error) {
 			return fmt.Errorf("failed to remove empty old snapshot directory %s: %s", old, err)
 		}
 		vhook.Trace(new, "up78.oldempty")
+		vhook.Crash("up78.oldempty")
 		return nil
 	}
 
@@ -235,12 +236,15 @@ func Upgrade8To10(old, new string, logger *log.Logger) (retErr error) {
 			// Executing the plan again would recreate the temporary directory and then
 			// fail to rename it over the new directory (or fail to copy from an old
 			// directory that is already partly removed), so just finish the clean-up.
+			vhook.Crash("up810.cleanup.pre")
 			if err := os.RemoveAll(tmpName(new)); err != nil {
 				return fmt.Errorf("failed to remove temporary snapshot directory %s: %w", tmpName(new), err)
 			}
 			if err := os.RemoveAll(old); err != nil {
 				return fmt.Errorf("failed to remove old snapshot directory %s: %w", old, err)
 			}
+			vhook.Trace(new, "up810.cleanup")
+			vhook.Crash("up810.cleanup")
 		} else if err := p.Execute(plan.NewExecutor()); err != nil {
 			return fmt.Errorf("executing resumed upgrade plan: %w", err)
 		}
@@ -269,6 +273,7 @@ func Upgrade8To10(old, new string, logger *log.Logger) (retErr error) {
 			return fmt.Errorf("failed to remove empty old snapshot directory %s: %s", old, err)
 		}
 		vhook.Trace(new, "up810.oldempty")
+		vhook.Crash("up810.oldempty")
 		return nil
 	}
 
